@@ -1241,7 +1241,7 @@ impl<H: Host> Emulator<H> {
                     assert(0u8 & 1 != 1 && 0u8 & 2 != 2) by(bit_vector);
                     lemma_mview(self.controller);
                 }
-//@ at 1 /let events = self\.controller\.take_events\(\);/
+//@ at 1 /self\.controller\.take_events\(\)/
                 proof { lemma_mview(self.controller); }
 //@ at 1 /if stopwatch\.measure\(\) > emulation_limit/
             proof { lemma_run_step(s0, (n - 1) as nat); }
